@@ -1,11 +1,10 @@
 CONSTANTS
-  Kind <- V1V2
-  Scripted <- NoneScripted
-  GarbLens = {0, 2}
+  Confs <- ConfsV1V2
+  GarbLens = {0}
   PreDecoys = {0}
   VersionLens = {0}
   DecoyLens = {0}
-  Types = {"version", "ping"}
+  Types = {"version"}
   Payloads = {"0", "2a"}
   PLenOf <- MCPLenOf
   Frags = {1, 16}
@@ -14,6 +13,7 @@ CONSTANTS
   MaxMsgs = 2
   MaxDecoys = 0
   TamperAfter = {0}
+  TamperKinds = {"key", "garb", "term", "pkt", "v1hdr", "v1pay"}
   AllowBurst = FALSE
 INIT Init
 NEXT Next
